@@ -59,6 +59,9 @@ pub struct PairJob {
     pub seed: u64,
     /// instead of an RPC request: a peer message handled by a second protocol handler
     pub deliver: Option<PairDeliver>,
+    /// three threads: park this job's thread before its n-th own boundary (storage write or
+    /// lock intent) and start a third operation meanwhile
+    pub then: Option<(u64, Box<PairJob>)>,
 }
 pub struct PairDeliver {
     pub handler: Box<dyn ckb_network::CKBProtocolHandler + Send>,
@@ -88,8 +91,47 @@ pub enum PairState {
 pub struct PairRx {
     rx: std::sync::mpsc::Receiver<String>,
     handle: Option<std::thread::JoinHandle<()>>,
+    /// kernel thread id of the operation's thread
+    tid: std::sync::Arc<AtomicU64>,
 }
 impl PairRx {
+    /// Waits until the operation has finished (Ok) or is seen blocked (Err): its thread has
+    /// been asleep - not runnable - at every poll of the last 100 ms, at least 250 ms after it
+    /// was started. A thread that is merely slow (runnable, waiting for a core on a loaded
+    /// machine) is not taken for a blocked one.
+    pub fn finished_or_blocked(&mut self) -> Result<String, ()> {
+        self.finished_or_blocked_inner(true)
+    }
+    pub fn finished_or_blocked_ignoring_flag(&mut self) -> Result<String, ()> {
+        self.finished_or_blocked_inner(false)
+    }
+    fn finished_or_blocked_inner(&mut self, heed_flag: bool) -> Result<String, ()> {
+        let t0 = std::time::Instant::now();
+        let mut asleep = 0u32;
+        loop {
+            if let Ok(r) = self.recv_timeout(std::time::Duration::from_millis(5)) {
+                return Ok(r);
+            }
+            let tid = self.tid.load(Ordering::SeqCst);
+            let state = if tid == 0 {
+                'R'
+            } else {
+                std::fs::read_to_string(format!("/proc/self/task/{}/stat", tid))
+                    .ok()
+                    .and_then(|s| s.rsplit(')').next().map(|r| r.trim_start().chars().next().unwrap_or('R')))
+                    .unwrap_or('R')
+            };
+            if state == 'S' && !(heed_flag && SECOND_WATCHES_THIRD.load(Ordering::SeqCst)) {
+                asleep += 1;
+            } else {
+                asleep = 0;
+            }
+            let waited = t0.elapsed();
+            if (asleep >= 20 && waited >= std::time::Duration::from_millis(250)) || waited >= std::time::Duration::from_secs(20) {
+                return Err(());
+            }
+        }
+    }
     pub fn recv_timeout(&mut self, d: std::time::Duration) -> Result<String, ()> {
         match self.rx.recv_timeout(d) {
             Ok(r) => {
@@ -104,6 +146,38 @@ impl PairRx {
 }
 static PAIR_JOB: std::sync::Mutex<Option<PairJob>> = std::sync::Mutex::new(None);
 static PAIR_STATE: std::sync::Mutex<Option<PairState>> = std::sync::Mutex::new(None);
+/// the third operation, until the second thread reaches its parking boundary
+static THIRD_JOB: std::sync::Mutex<Option<PairJob>> = std::sync::Mutex::new(None);
+static THIRD_STATE: std::sync::Mutex<Option<PairState>> = std::sync::Mutex::new(None);
+/// the second thread is parked in its hook, watching the third one: asleep, but not blocked
+static SECOND_WATCHES_THIRD: AtomicBool = AtomicBool::new(false);
+thread_local! {
+    /// on the second thread: own boundaries left until it parks and the third one starts
+    static THIRD_COUNTDOWN: std::cell::Cell<u64> = std::cell::Cell::new(0);
+}
+
+/// What became of the third operation: Ok((where it ran, answer)) - 0: inside the second
+/// operation, 1: it was blocked until something finished, 2: the second thread never reached its
+/// parking boundary and the job is handed back to run last.
+pub enum ThirdOutcome {
+    Ran(u8, String),
+    NotStarted(PairJob),
+    Deadlock,
+    None,
+}
+pub fn join_third() -> ThirdOutcome {
+    if let Some(j) = THIRD_JOB.lock().unwrap_or_else(|e| e.into_inner()).take() {
+        return ThirdOutcome::NotStarted(j);
+    }
+    match THIRD_STATE.lock().unwrap_or_else(|e| e.into_inner()).take() {
+        Some(PairState::RanInside(r)) => ThirdOutcome::Ran(0, r),
+        Some(PairState::Blocked(mut rx)) => match rx.recv_timeout(std::time::Duration::from_secs(20)) {
+            Ok(r) => ThirdOutcome::Ran(1, r),
+            Err(_) => ThirdOutcome::Deadlock,
+        },
+        None => ThirdOutcome::None,
+    }
+}
 
 /// Events a parked reader sends to the simulator thread.
 pub enum ReaderEvent {
@@ -169,11 +243,20 @@ fn reader_iteration_hook() {
     }
 }
 
-pub fn spawn_pair(job: PairJob) -> PairRx {
+pub fn spawn_pair(mut job: PairJob) -> PairRx {
     let (tx, rx) = std::sync::mpsc::channel();
+    let then = job.then.take();
+    let tid = std::sync::Arc::new(AtomicU64::new(0));
+    let tid2 = tid.clone();
     let handle = std::thread::Builder::new()
         .stack_size(16 << 20)
         .spawn(move || {
+            tid2.store(unsafe { libc::syscall(libc::SYS_gettid) } as u64, Ordering::SeqCst);
+            if let Some((n, third)) = then {
+                *THIRD_JOB.lock().unwrap_or_else(|e| e.into_inner()) = Some(*third);
+                *THIRD_STATE.lock().unwrap_or_else(|e| e.into_inner()) = None;
+                THIRD_COUNTDOWN.with(|c| c.set(n.max(1)));
+            }
             entropy::install(job.seed);
             let r = std::panic::catch_unwind(std::panic::AssertUnwindSafe(|| job.run()));
             entropy::uninstall();
@@ -183,10 +266,12 @@ pub fn spawn_pair(job: PairJob) -> PairRx {
             });
         })
         .expect("spawn pair thread");
-    PairRx { rx, handle: Some(handle) }
+    PairRx { rx, handle: Some(handle), tid }
 }
 
 pub fn arm_pause(at: u64, job: PairJob) {
+    *THIRD_JOB.lock().unwrap_or_else(|e| e.into_inner()) = None;
+    *THIRD_STATE.lock().unwrap_or_else(|e| e.into_inner()) = None;
     *PAIR_JOB.lock().unwrap_or_else(|e| e.into_inner()) = Some(job);
     *PAIR_STATE.lock().unwrap_or_else(|e| e.into_inner()) = None;
     PAUSE_AT.store(at, Ordering::SeqCst);
@@ -237,6 +322,33 @@ fn install_write_hook() {
         if matches!(p, crate::verif_hooks::Point::BeforeWrite(_) | crate::verif_hooks::Point::LockIntent(_)) {
             let b = BOUNDS.fetch_add(1, Ordering::SeqCst) + 1;
             let _ = BOUND_IS_LOCK.try_with(|v| v.borrow_mut().push(matches!(p, crate::verif_hooks::Point::LockIntent(_))));
+            // the second thread of a three-thread case parks before its n-th own boundary
+            let start_third = THIRD_COUNTDOWN
+                .try_with(|c| {
+                    let left = c.get();
+                    if left == 0 {
+                        false
+                    } else {
+                        c.set(left - 1);
+                        left == 1
+                    }
+                })
+                .unwrap_or(false);
+            if start_third {
+                let job = THIRD_JOB.lock().unwrap_or_else(|e| e.into_inner()).take();
+                if let Some(job) = job {
+                    SECOND_WATCHES_THIRD.store(true, Ordering::SeqCst);
+                    let mut rx = spawn_pair(job);
+                    // (the watcher of this thread is told not to count it as asleep; the flag is
+                    // read by the first thread only, the third one has no watcher of its own kind)
+                    let st = match rx.finished_or_blocked_ignoring_flag() {
+                        Ok(r) => PairState::RanInside(r),
+                        Err(_) => PairState::Blocked(rx),
+                    };
+                    SECOND_WATCHES_THIRD.store(false, Ordering::SeqCst);
+                    *THIRD_STATE.lock().unwrap_or_else(|e| e.into_inner()) = Some(st);
+                }
+            }
             let pause = PAUSE_AT.load(Ordering::SeqCst);
             if pause != 0 && b == pause {
                 let job = PAIR_JOB.lock().unwrap_or_else(|e| e.into_inner()).take();
@@ -245,7 +357,7 @@ fn install_write_hook() {
                     let mut rx = spawn_pair(job);
                     // parked here: the second operation either finishes (it ran inside this
                     // one) or it does not (it waits for a lock this one holds)
-                    let st = match rx.recv_timeout(std::time::Duration::from_millis(250)) {
+                    let st = match rx.finished_or_blocked() {
                         Ok(r) => PairState::RanInside(r),
                         Err(_) => PairState::Blocked(rx),
                     };
@@ -414,6 +526,9 @@ pub fn execute_pair(plan: &Plan, verbose: bool) -> Outcome {
         .collect();
     let pool = if pool.is_empty() { ks.clone() } else { pool };
     let (k, e, kind) = pool[((slot.wrapping_mul(7919) + 13) % pool.len() as u64) as usize].clone();
+    if let Some(op2) = flag_u64(plan, "pair_op2=") {
+        return execute_triple(plan, verbose, base, (k, e, kind), op, op2 % 13, slot);
+    }
     let mut outs = Vec::new();
     for mode in ["before", "after", "during"] {
         let mut p = plan.clone();
@@ -548,6 +663,89 @@ pub fn execute_pair(plan: &Plan, verbose: bool) -> Outcome {
     // the unchanged tree (B waits for A's lock), so it is part of the trace hash
     out.trace_hash = entropy::mix(&[before.trace_hash, after.trace_hash, out.snapshot.as_ref().map(|s| crate::entropy::hash_str(s)).unwrap_or(0)]);
     out.events = before.events + after.events + out.events;
+    out
+}
+
+/// C17, three threads: A is parked before boundary K, B is started on a second thread and is
+/// itself parked before its n-th own boundary, where C is started on a third thread; then B
+/// and A are released in that order. The outcome must be the outcome of one of the six serial
+/// orders of A, B and C (each executed on the same deterministic history), and all three finish.
+fn execute_triple(plan: &Plan, verbose: bool, base: Outcome, at: (u64, u64, String), op: u64, op2: u64, slot: u64) -> Outcome {
+    let (k, e, kind) = at;
+    let park_b = 1 + (slot / 3) % 3;
+    let run = |mode: &str, verbose: bool| {
+        let mut p = plan.clone();
+        p.flags.retain(|f| !f.starts_with("pair_"));
+        p.flags.push(format!("pair_event={}", e));
+        p.flags.push(format!("pair_write={}", k));
+        p.flags.push(format!("pair_mode={}", mode));
+        p.flags.push(format!("pair_op={}", op));
+        p.flags.push(format!("pair_op2={}", op2));
+        p.flags.push(format!("pair_park2={}", park_b));
+        execute_one(&p, verbose)
+    };
+    let orders = ["serial:BC|", "serial:CB|", "serial:B|C", "serial:C|B", "serial:|BC", "serial:|CB"];
+    let serial: Vec<Outcome> = orders.iter().map(|m| run(m, false)).collect();
+    let mut out = run("triple", verbose);
+    let own: Vec<Violation> = out.violations.iter().filter(|v| v.property == "C17").cloned().collect();
+    out.violations = own;
+    for o in serial.iter() {
+        if out.harness_error.is_none() {
+            out.harness_error = o.harness_error.clone();
+        }
+    }
+    let mut stats: BTreeMap<String, u64> = BTreeMap::new();
+    stats.insert("probe.c17.cases".into(), 1);
+    stats.insert("probe.c17.three_thread_cases".into(), 1);
+    for k in [
+        "probe.c17.no_such_message_now",
+        "probe.c17.same_protocol_not_paired",
+        "probe.c17.third_ran_inside_second",
+        "probe.c17.third_blocked",
+        "probe.c17.third_ran_last",
+        "probe.c17.paused_before_taking_the_lock",
+    ] {
+        if out.stats.contains_key(k) || serial[0].stats.contains_key(k) {
+            stats.insert(k.into(), 1);
+        }
+    }
+    stats.insert(format!("c17.A.{}", kind), 1);
+    stats.insert(format!("c17.B.{}", PAIR_OPS[op as usize]), 1);
+    stats.insert(format!("c17.C.{}", PAIR_OPS[op2 as usize]), 1);
+    let what = format!(
+        "A = {} (event {}, parked before boundary {}), B = {} (parked before its boundary {}), C = {}",
+        kind, e, k, PAIR_OPS[op as usize], park_b, PAIR_OPS[op2 as usize]
+    );
+    if out.harness_error.is_none() && out.violations.is_empty() {
+        let snaps: Vec<Option<&String>> = serial.iter().map(|o| o.snapshot.as_ref()).collect();
+        if let (Some(d), true) = (out.snapshot.as_ref(), snaps.iter().all(|s| s.is_some())) {
+            let distinct: std::collections::BTreeSet<&String> = snaps.iter().map(|s| s.unwrap()).collect();
+            if distinct.len() > 1 {
+                stats.insert("probe.c17.order_matters".into(), 1);
+            }
+            if distinct.len() > 2 {
+                stats.insert("probe.c17.three_orders_differ".into(), 1);
+            }
+            if !distinct.contains(d) {
+                let listing: Vec<String> = orders.iter().zip(snaps.iter()).map(|(m, s)| format!("{} gives {}", m, s.unwrap())).collect();
+                out.violations.push(Violation {
+                    property: "C17".into(),
+                    clause: "outcome_matches_no_serial_order".into(),
+                    detail: format!("{}: concurrent outcome {} ; {}", what, d, listing.join(" ; ")),
+                    at_event: e,
+                    at_time: out.vtime,
+                });
+            }
+        } else {
+            stats.insert("probe.c17.no_snapshot".into(), 1);
+        }
+    }
+    out.stats = stats;
+    let mut hs: Vec<u64> = serial.iter().map(|o| o.trace_hash).collect();
+    hs.push(out.snapshot.as_ref().map(|s| crate::entropy::hash_str(s)).unwrap_or(0));
+    out.trace_hash = entropy::mix(&hs);
+    out.events += serial.iter().map(|o| o.events).sum::<u64>();
+    let _ = base;
     out
 }
 
